@@ -1581,6 +1581,8 @@ def hist_switches(rng, cfg, g: G, meta, n_dicts=3):
                 lab.setdefault("LOGGING", {})["DISABLED"] = True
             if l == "ctx":
                 kw["log_off"] = True
+            if c == "ctx" and l == "ctx":
+                kw["ctx_order"] = rng.choice(["cache_first", "log_first"])
             toggled = []
             if e == "dataset":
                 for d in ds_ids:
@@ -1731,4 +1733,73 @@ C17 = CoreProp("C17", ("cache", "eval"), c17_programs, c17_oracle, classify=c01_
                     "random dataset graphs")
 
 
-ALL = {p.pid: p for p in (C01, C02, C03, C04, C05, C06, C08, C09, C10, C11, C12, C16, C17)}
+# ================================================================== C18 (the part that rests on the core model)
+
+def hist_requests(rng, cfg, g: G, meta, n_dicts=3):
+    P = g.P
+    root = g.expr("any", rng.randint(1, cfg.max_depth))
+    fam = dict_family(rng, cfg, n_dicts)
+    recs = []
+    for o in fam:
+        for op in ("evaluate", "validate", "keys", "explain"):
+            P.raw_op(op="reset")
+            P.op(op, root, o)                        # under recording pass-through handlers
+            P.raw_op(op="reset")
+            P.op(op, root, o, no_recording=True)     # plain
+            recs.append((len(P.ops) - 3, len(P.ops) - 1))
+    meta["passthrough"] = recs
+    # substitution of one dataset used as a dependency
+    subs = []
+    if g.datasets:
+        d = rng.choice(g.datasets)
+        v = rng.choice(["SUB", 7, ["s"]])
+        for o in fam[:2]:
+            for outer, cache_off, log_off in ((False, False, False), (True, False, False), (True, True, False), (True, False, True), (True, True, True)):
+                P.raw_op(op="reset")
+                kw = {"subst": [d, v]}
+                if outer:
+                    kw.update(subst_outer=True, no_recording=True)
+                if cache_off:
+                    kw["cache_off"] = True
+                if log_off:
+                    kw["log_off"] = True
+                if cache_off and log_off:
+                    kw["ctx_order"] = rng.choice(["cache_first", "log_first"])
+                P.evaluate(root, o, **kw)
+                subs.append(len(P.ops) - 1)
+    meta["subst"] = subs
+
+
+def c18_programs(rng, tier) -> List[Item]:
+    cfg = Cfg(raising=False)
+    return gen_items(rng, cfg, sizes(tier, 200, 2500), hist_requests)
+
+
+def c18_oracle(prog, meta, impl, model):
+    out = []
+    for i, j in meta.get("passthrough", []):
+        a, b = impl[i], impl[j]
+        if "r" in a and "r" in b and a["r"][0] != "fuel" and b["r"][0] != "fuel" and dumps(a["r"]) != dumps(b["r"]):
+            out.append(("pass-through handlers for all request types changed the result of an operation", i,
+                        {"op": prog["ops"][i]["op"], "options": prog["ops"][i]["o"], "with_handlers": a["r"], "plain": b["r"]}))
+    if isinstance(model, list):
+        from pylib import canon_model_value
+        for i in meta.get("subst", []):
+            a, b = impl[i], model[i]
+            if "r" not in a or not isinstance(b, dict) or "r" not in b or a["r"][0] == "fuel" or b["r"][0] == "fuel":
+                continue
+            same = a["r"][0] == b["r"][0] and (a["r"][0] != "ok" or dumps(a["r"][1]) == dumps(canon_model_value(b["r"][1])))
+            if not same:
+                out.append(("a handler substituting the result of one dataset was not honoured where the dataset is a dependency", i,
+                            {"op": prog["ops"][i], "got": a["r"], "expected": b["r"]}))
+    return out
+
+
+C18 = CoreProp("C18", ("req", "eval", "keys", "validate", "explain"), c18_programs, c18_oracle, nontrivial=nontrivial_eval,
+               rule="random graphs: each of the four operations once under recording pass-through handlers for all nine "
+                    "request types (request log compared with the model's, result compared with the plain run) and a "
+                    "substituting EvaluateRequest handler for one dataset, installed inside and outside the library's own "
+                    "cache/logging contexts")
+
+
+ALL = {p.pid: p for p in (C01, C02, C03, C04, C05, C06, C08, C09, C10, C11, C12, C16, C17, C18)}
